@@ -71,6 +71,12 @@ class Prop(PropBase):
         for call in OPS:
             for cls, layout in (("BasebandSignal", "nonfinite"), ("DualPolarizationSignal", "lastmajor"), ("DualPolarizationSignal", "nonfinite")):
                 yield {"op": "one", "cls": cls, "call": call, "layout": layout, "seed": rng.randrange(1 << 30)}
+        # extended-precision samples (complex256 / float128) in the classes without a dtype requirement through the FFT-based
+        # operations: a dtype the FFT back end transforms natively must not be transformed in the caller's buffer
+        for cls in ("Signal", "RadioSignal"):
+            for call in ("time_shift", "time_shift_crop", "time_shift_arr", "time_shift_tiny", "snippet_f", "snippet_q", "snippet_tiny", "ufunc"):
+                for var in (6, 8, 2):
+                    yield {"op": "one", "cls": cls, "call": call, "layout": "contig", "seed": 12 * rng.randrange(1 << 20) + var}
         for _ in range(60 if quick else 1500):
             yield {"op": "history", "cls": rng.choice(sigs.CLASSES[1:]),
                    "calls": [rng.choice(OPS) for _ in range(rng.randint(2, 10))],
